@@ -110,6 +110,10 @@ func c16Entries() []c16Entry {
 			return &ap.Link{ID: "https://example.com/l", Type: ap.MentionType, Href: "https://example.com/h"}
 		}},
 		{name: "*link-noid", ident: "", mk: func() ap.Item { return &ap.Link{Type: ap.LinkType, Href: "https://example.com/h2"} }},
+		// plain IRIs in other legal spellings stay exactly as they are (no canonicalisation, no merging with the full form)
+		{name: "iri-as:Public", ident: "as:Public", mk: func() ap.Item { return ap.IRI("as:Public") }},
+		{name: "iri-PublicNS", ident: string(ap.PublicNS), mk: func() ap.Item { return ap.PublicNS }},
+		{name: "iri-ipv6", ident: "https://[2001:db8::1]/a", mk: func() ap.Item { return ap.IRI("https://[2001:db8::1]/a") }},
 	}
 	for i := range es {
 		if es[i].want == "" {
